@@ -4,14 +4,7 @@ package main
 
 import (
 	"bytes"
-	"context"
-	"fmt"
-	"os"
-	"os/exec"
-	"path/filepath"
 	"strings"
-	"sync"
-	"time"
 )
 
 // c01Corpus: witnesses of past findings of the structured families (emitted with the rest of the corpus).
@@ -44,6 +37,12 @@ func c01Short(typ string) string {
 	s := strings.TrimSuffix(strings.TrimPrefix(typ, "ssh-"), "@openssh.com")
 	return strings.ReplaceAll(s, "ecdsa-sha2-", "ecdsa-")
 }
+
+// what the one-field families leave for the container families (c01Containers runs after c01Structured)
+var (
+	c01BadSSHLines []string
+	c01GoodSSHKeys []string
+)
 
 func c01Structured(c *Ctx, r *Rng, seeds []seedInput, add func(kind, name string, data []byte)) {
 	c01GenJWT(c, r, add)
@@ -83,7 +82,7 @@ func c01Structured(c *Ctx, r *Rng, seeds []seedInput, add func(kind, name string
 			}
 		}
 	}
-	c01GenSSHLines(c, r, blobs, add)
+	c01BadSSHLines, c01GoodSSHKeys = c01GenSSHLines(c, r, blobs, add)
 
 	// --- PuTTY header lines
 	var ed, rsa []byte
@@ -117,10 +116,10 @@ func c01Structured(c *Ctx, r *Rng, seeds []seedInput, add func(kind, name string
 	// --- Java keystores (kind suffix :java as for the fixtures: known finding F25-jks is matched on it).
 	// The third-party reader sizes allocations from the length fields before reading (F25-jks): in a long-lived
 	// process each such allocation costs hundreds of milliseconds, so the quick tier keeps every variant that
-	// requests at most 16 MiB and a seeded sample of those that request more; the thorough tier keeps all.
+	// requests at most 1 MiB and a seeded sample of those that request more; the thorough tier keeps all.
 	nBig, bigRot := 0, r.Intn(5)
 	addJKS := func(kind, name string, data []byte) {
-		if !c.Thorough() && c01JKSMaxAlloc(data) > 16<<20 {
+		if !c.Thorough() && c01JKSMaxAlloc(data) > 1<<20 {
 			nBig++
 			if (nBig+bigRot)%5 != 0 || nBig > 150 {
 				return
@@ -220,7 +219,10 @@ func c01Structured(c *Ctx, r *Rng, seeds []seedInput, add func(kind, name string
 // c01JKSMaxAlloc follows the keystore stream the way jks-go's reader does (entries of type 1 and 2; the
 // walk ends at a sealed secret key, at the end of the data or after 64 entries) and returns the largest
 // buffer length it would request.
-func c01JKSMaxAlloc(d []byte) uint64 {
+func c01JKSMaxAlloc(d []byte) uint64 { return c01JKSMaxAllocSealed(d, nil) }
+
+// c01JKSMaxAllocSealed: the same, walking over sealed secret-key entries that hold exactly the given stream.
+func c01JKSMaxAllocSealed(d []byte, sealed []byte) uint64 {
 	if len(d) < 12 {
 		return 0
 	}
@@ -271,6 +273,10 @@ func c01JKSMaxAlloc(d []byte) uint64 {
 			}
 		case 2:
 		case 3:
+			if len(sealed) > 0 && bytes.HasPrefix(d[pos:], sealed) {
+				pos += len(sealed)
+				continue
+			}
 			return max
 		default:
 			continue
@@ -350,136 +356,4 @@ func c01JKSWalk(d []byte) []c01JKSField {
 		}
 	}
 	return out
-}
-
-// c01CLIBatches runs the real command-line tool over the given cases, many files per invocation (each file
-// in a directory of its own, under its own name), and returns per case what a run on that file alone shows:
-// exit status, whether the i-th report starts with "path: ", whether the output ends with a line terminator,
-// and the number of reports printed for the file.  A batch whose output is not exactly one report per file
-// in order with exit status 0 is re-run file by file.
-type c01CLIObs struct {
-	path            string
-	code            int
-	prefix, newline bool
-	reports         int
-}
-
-func c01RunCLI(c *Ctx, paths []string) ([]byte, int) {
-	ctx, cancel := context.WithTimeout(context.Background(), time.Duration(20+len(paths))*time.Second)
-	defer cancel()
-	cmd := exec.CommandContext(ctx, c.Bin, paths...)
-	var so bytes.Buffer
-	cmd.Stdout = &so
-	err := cmd.Run()
-	code := 0
-	if err != nil {
-		if ee, ok := err.(*exec.ExitError); ok {
-			code = ee.ExitCode()
-		} else {
-			code = -1
-		}
-	}
-	return so.Bytes(), code
-}
-
-func c01TopLines(out []byte) []string {
-	var tops []string
-	for _, l := range strings.Split(string(out), "\n") {
-		if l != "" && l[0] != ' ' {
-			tops = append(tops, l)
-		}
-	}
-	return tops
-}
-
-func c01CLIBatches(c *Ctx, cases []workerCase, batch int) []c01CLIObs {
-	res := make([]c01CLIObs, len(cases))
-	root := filepath.Join(c.Tmp, "c01b")
-	for start := 0; start < len(cases); start += batch {
-		end := start + batch
-		if end > len(cases) {
-			end = len(cases)
-		}
-		os.MkdirAll(root, 0o755)
-		var paths []string
-		for i := start; i < end; i++ {
-			dir := filepath.Join(root, fmt.Sprintf("%d", i-start))
-			os.MkdirAll(dir, 0o755)
-			name := cases[i].Name
-			if name == "" || strings.ContainsAny(name, "/\x00") {
-				name = "f"
-			}
-			p := filepath.Join(dir, name)
-			os.WriteFile(p, cases[i].Data, 0o644)
-			paths = append(paths, p)
-		}
-		out, code := c01RunCLI(c, paths)
-		tops := c01TopLines(out)
-		ok := code == 0 && len(tops) == len(paths) && len(out) > 0 && out[len(out)-1] == '\n'
-		for i := 0; ok && i < len(paths); i++ {
-			ok = strings.HasPrefix(tops[i], paths[i]+": ")
-		}
-		for i, p := range paths {
-			if ok {
-				res[start+i] = c01CLIObs{p, 0, true, true, 1}
-				continue
-			}
-			o, code1 := c01RunCLI(c, []string{p})
-			t := c01TopLines(o)
-			res[start+i] = c01CLIObs{p, code1, len(t) > 0 && strings.HasPrefix(t[0], p+": "), len(o) > 0 && o[len(o)-1] == '\n', len(t)}
-		}
-		os.RemoveAll(root)
-	}
-	return res
-}
-
-// c01RunIsolatedParallel splits the cases over n isolated workers (each with a scratch directory of its own).
-func c01RunIsolatedParallel(c *Ctx, cases []workerCase, n int) []workerResult {
-	res := make([]workerResult, len(cases))
-	var wg sync.WaitGroup
-	per := (len(cases) + n - 1) / n
-	for w := 0; w < n; w++ {
-		lo, hi := w*per, (w+1)*per
-		if hi > len(cases) {
-			hi = len(cases)
-		}
-		if lo >= hi {
-			break
-		}
-		wg.Add(1)
-		go func(w, lo, hi int) {
-			defer wg.Done()
-			cc := *c
-			cc.Tmp = filepath.Join(c.Tmp, fmt.Sprintf("w%d", w))
-			os.MkdirAll(cc.Tmp, 0o755)
-			copy(res[lo:hi], runIsolated(&cc, cases[lo:hi]))
-		}(w, lo, hi)
-	}
-	wg.Wait()
-	return res
-}
-
-func c01CLIBatchesParallel(c *Ctx, cases []workerCase, batch, n int) []c01CLIObs {
-	res := make([]c01CLIObs, len(cases))
-	var wg sync.WaitGroup
-	per := (len(cases) + n - 1) / n
-	for w := 0; w < n; w++ {
-		lo, hi := w*per, (w+1)*per
-		if hi > len(cases) {
-			hi = len(cases)
-		}
-		if lo >= hi {
-			break
-		}
-		wg.Add(1)
-		go func(w, lo, hi int) {
-			defer wg.Done()
-			cc := *c
-			cc.Tmp = filepath.Join(c.Tmp, fmt.Sprintf("b%d", w))
-			os.MkdirAll(cc.Tmp, 0o755)
-			copy(res[lo:hi], c01CLIBatches(&cc, cases[lo:hi], batch))
-		}(w, lo, hi)
-	}
-	wg.Wait()
-	return res
 }
